@@ -13,8 +13,8 @@ Open Scope N_scope.
 
 Lemma disabled_user_authenticates_with_cookie_refuted :
   exists ops sid o w usr,
-    let st := run_gen XC false (init XC 10) ops in
-    authenticates o sid /\ authed (snd (step_gen XC false st o)) = Some w /\
+    let st := run_gen XC false true (init XC 10) ops in
+    authenticates o sid /\ authed (snd (step_gen XC false true st o)) = Some w /\
     alookup w (users st) = Some usr /\ u_disabled usr = true.
 Proof.
   exists [CreateUser 1 1 1 4; CreateSession 1 1 1000 false; SetDisabled 1 true], 1, (AuthCookie 1), 1,
@@ -24,8 +24,8 @@ Qed.
 
 Lemma disabled_user_authenticates_with_one_time_session_refuted :
   exists ops sid,
-    authed (snd (step_gen XC false (run_gen XC false (init XC 10) ops) (AuthOneTime sid))) = Some 1 /\
-    authed (snd (step_gen XC false (run_gen XC false (init XC 10) ops) (AuthPassword 1 1 None))) = None.
+    authed (snd (step_gen XC false true (run_gen XC false true (init XC 10) ops) (AuthOneTime sid))) = Some 1 /\
+    authed (snd (step_gen XC false true (run_gen XC false true (init XC 10) ops) (AuthPassword 1 1 None))) = None.
 Proof.
   exists [CreateUser 1 1 1 4; CreateSession 1 1 1000 true; SetDisabled 1 true], 1.
   vm_compute. split; reflexivity.
@@ -33,25 +33,45 @@ Qed.
 
 (* the repaired model refuses the same history *)
 Lemma disabled_user_refused_when_repaired :
-  authed (snd (step_gen XC true (run_gen XC true (init XC 10)
+  authed (snd (step_gen XC true true (run_gen XC true true (init XC 10)
       [CreateUser 1 1 1 4; CreateSession 1 1 1000 false; SetDisabled 1 true]) (AuthCookie 1))) = None.
 Proof. vm_compute. reflexivity. Qed.
 
-(* 3. Re-hashing at login with two bcrypt costs in use at once (the callback of rehashPassword re-checks only the
-      COST of the reloaded document, not that it still verifies the password presented): a login with the old
-      password 1 (configured cost 5) reads the user; a node still hashing with cost 4 changes the password to 5;
-      the login's Save hits the CAS mismatch, reloads, sees cost 4 <> 5 and writes the OLD password back.
-      Afterwards the superseded password authenticates and the current one is refused.  With one configured cost
-      this cannot happen (C12_Properties.C12_rehash_preserves_credentials). *)
+(* 3. The rehashPassword callback BEFORE its repair (rcp = false: it re-checks only the COST of the reloaded
+      document, not that it still verifies the password presented), with two bcrypt costs in use at once: a login
+      with the old password 1 (configured cost 5) reads the user; a node still hashing with cost 4 changes the
+      password to 5; the login's Save hits the CAS mismatch, reloads, sees cost 4 <> 5 and writes the OLD password
+      back.  Afterwards the superseded password authenticates and the current one is refused.  The same history
+      run on the unrepaired implementation does exactly that (monitor signature
+      stale-password-reinstated-by-rehash-mixed-cost); the repaired callback (rcp = true, the model of the tree:
+      C12_Properties.C12_rehash_preserves_credentials, all histories) leaves the new password alone. *)
+Definition mixed_cost_history : list op :=
+  [CreateUser 1 1 1 4; LoginRehash 7 1 1 None 5; SetPassword 1 5 2 4; RehashSave 7 3 None; RehashSave 7 4 None].
+
 Lemma rehash_mixed_cost_reinstates_old_password_refuted :
   exists ops,
-    let st := run_gen XC true (init XC 10) ops in
-    authed (snd (step_gen XC true st (AuthPassword 1 1 None))) = Some 1 /\
-    authed (snd (step_gen XC true st (AuthPassword 1 5 None))) = None.
+    let st := run_gen XC true false (init XC 10) ops in
+    authed (snd (step_gen XC true false st (AuthPassword 1 1 None))) = Some 1 /\
+    authed (snd (step_gen XC true false st (AuthPassword 1 5 None))) = None.
+Proof. exists mixed_cost_history. vm_compute. split; reflexivity. Qed.
+
+(* ... and it is the statement of C12_rehash_preserves_credentials that fails for rcp = false: the second Save
+   attempt makes the credential accept a string (the old password 1) that it refused before *)
+Lemma rehash_preserves_credentials_unrepaired_refuted :
+  exists ops a salt ev u x,
+    let st := run_gen XC true false (init XC 10) ops in
+    creds XC (fst (step_gen XC true false st (RehashSave a salt ev))) u x = true /\ creds XC st u x = false.
 Proof.
-  exists [CreateUser 1 1 1 4; LoginRehash 7 1 1 None 5; SetPassword 1 5 2 4; RehashSave 7 3; RehashSave 7 4].
+  exists [CreateUser 1 1 1 4; LoginRehash 7 1 1 None 5; SetPassword 1 5 2 4; RehashSave 7 3 None], 7, 4, None, 1, 1.
   vm_compute. split; reflexivity.
 Qed.
+
+(* the repaired model on the same history: the current password authenticates, the old one is refused *)
+Lemma rehash_mixed_cost_refused_when_repaired :
+  let st := run_gen XC true true (init XC 10) mixed_cost_history in
+  authed (snd (step_gen XC true true st (AuthPassword 1 1 None))) = None /\
+  authed (snd (step_gen XC true true st (AuthPassword 1 5 None))) = Some 1.
+Proof. vm_compute. split; reflexivity. Qed.
 
 Open Scope nat_scope.
 (* A reads; B reads, checks, deletes (wins); A checks -- refreshing: the document is back -- A deletes: wins *)
